@@ -10,16 +10,17 @@
             match bcd_fold(b, b.len(), 0xff) { Some(v) => Some((v as u8, b.len() as int)), None => None }
         }
         open spec fn progresses() -> bool { false }
-        //@ fn exp:zvt_builder | impl Encoding<u8> for Bcd | encode | mod=encoding all-loops props=C17,C03
+        //@ fn exp:zvt_builder | impl Encoding<u8> for Bcd | encode | mod=encoding all-loops props=C17,C03 $M
         //@ loop 0
                 invariant rv@ + bcd_rev(k as nat) =~= bcd_rev(*input as nat),
                 decreases k,
         //@ end
-        //@ fn exp:zvt_builder | impl Encoding<u8> for Bcd | decode | mod=encoding all-loops n3=d props=C02,C17
+        //@ fn exp:zvt_builder | impl Encoding<u8> for Bcd | decode | mod=encoding all-loops n3=d props=C02,C17 $M
         //@ loop 0
                 invariant bcd_fold(data@, iter.index@ as nat, 0xff) == Some(rv as nat),
         //@ end
         open spec fn self_delimiting() -> bool { false }
+        open spec fn functional() -> bool { true }
         proof fn law_dec_bounds(b: Seq<u8>) {}
         proof fn law_dec_frame(b: Seq<u8>, s: Seq<u8>) {}
         //@ tag enc.law_inverse.bcd.u8 C17 C01
@@ -42,16 +43,17 @@
             match bcd_fold(b, b.len(), 0xffff) { Some(v) => Some((v as u16, b.len() as int)), None => None }
         }
         open spec fn progresses() -> bool { false }
-        //@ fn exp:zvt_builder | impl Encoding<u16> for Bcd | encode | mod=encoding all-loops props=C17,C03
+        //@ fn exp:zvt_builder | impl Encoding<u16> for Bcd | encode | mod=encoding all-loops props=C17,C03 $M
         //@ loop 0
                 invariant rv@ + bcd_rev(k as nat) =~= bcd_rev(*input as nat),
                 decreases k,
         //@ end
-        //@ fn exp:zvt_builder | impl Encoding<u16> for Bcd | decode | mod=encoding all-loops n3=d props=C02,C17
+        //@ fn exp:zvt_builder | impl Encoding<u16> for Bcd | decode | mod=encoding all-loops n3=d props=C02,C17 $M
         //@ loop 0
                 invariant bcd_fold(data@, iter.index@ as nat, 0xffff) == Some(rv as nat),
         //@ end
         open spec fn self_delimiting() -> bool { false }
+        open spec fn functional() -> bool { true }
         proof fn law_dec_bounds(b: Seq<u8>) {}
         proof fn law_dec_frame(b: Seq<u8>, s: Seq<u8>) {}
         //@ tag enc.law_inverse.bcd.u16 C17 C01
@@ -74,16 +76,17 @@
             match bcd_fold(b, b.len(), 0xffff_ffff) { Some(v) => Some((v as u32, b.len() as int)), None => None }
         }
         open spec fn progresses() -> bool { false }
-        //@ fn exp:zvt_builder | impl Encoding<u32> for Bcd | encode | mod=encoding all-loops props=C17,C03
+        //@ fn exp:zvt_builder | impl Encoding<u32> for Bcd | encode | mod=encoding all-loops props=C17,C03 $M
         //@ loop 0
                 invariant rv@ + bcd_rev(k as nat) =~= bcd_rev(*input as nat),
                 decreases k,
         //@ end
-        //@ fn exp:zvt_builder | impl Encoding<u32> for Bcd | decode | mod=encoding all-loops n3=d props=C02,C17
+        //@ fn exp:zvt_builder | impl Encoding<u32> for Bcd | decode | mod=encoding all-loops n3=d props=C02,C17 $M
         //@ loop 0
                 invariant bcd_fold(data@, iter.index@ as nat, 0xffff_ffff) == Some(rv as nat),
         //@ end
         open spec fn self_delimiting() -> bool { false }
+        open spec fn functional() -> bool { true }
         proof fn law_dec_bounds(b: Seq<u8>) {}
         proof fn law_dec_frame(b: Seq<u8>, s: Seq<u8>) {}
         //@ tag enc.law_inverse.bcd.u32 C17 C01
@@ -106,16 +109,17 @@
             match bcd_fold(b, b.len(), 0xffff_ffff_ffff_ffff) { Some(v) => Some((v as u64, b.len() as int)), None => None }
         }
         open spec fn progresses() -> bool { false }
-        //@ fn exp:zvt_builder | impl Encoding<u64> for Bcd | encode | mod=encoding all-loops props=C17,C03
+        //@ fn exp:zvt_builder | impl Encoding<u64> for Bcd | encode | mod=encoding all-loops props=C17,C03 $M
         //@ loop 0
                 invariant rv@ + bcd_rev(k as nat) =~= bcd_rev(*input as nat),
                 decreases k,
         //@ end
-        //@ fn exp:zvt_builder | impl Encoding<u64> for Bcd | decode | mod=encoding all-loops n3=d props=C02,C17
+        //@ fn exp:zvt_builder | impl Encoding<u64> for Bcd | decode | mod=encoding all-loops n3=d props=C02,C17 $M
         //@ loop 0
                 invariant bcd_fold(data@, iter.index@ as nat, 0xffff_ffff_ffff_ffff) == Some(rv as nat),
         //@ end
         open spec fn self_delimiting() -> bool { false }
+        open spec fn functional() -> bool { true }
         proof fn law_dec_bounds(b: Seq<u8>) {}
         proof fn law_dec_frame(b: Seq<u8>, s: Seq<u8>) {}
         //@ tag enc.law_inverse.bcd.u64 C17 C01
@@ -138,16 +142,17 @@
             match bcd_fold(b, b.len(), 0xffff_ffff_ffff_ffff) { Some(v) => Some((v as usize, b.len() as int)), None => None }
         }
         open spec fn progresses() -> bool { false }
-        //@ fn exp:zvt_builder | impl Encoding<usize> for Bcd | encode | mod=encoding all-loops props=C17,C03
+        //@ fn exp:zvt_builder | impl Encoding<usize> for Bcd | encode | mod=encoding all-loops props=C17,C03 $M
         //@ loop 0
                 invariant rv@ + bcd_rev(k as nat) =~= bcd_rev(*input as nat),
                 decreases k,
         //@ end
-        //@ fn exp:zvt_builder | impl Encoding<usize> for Bcd | decode | mod=encoding all-loops n3=d props=C02,C17
+        //@ fn exp:zvt_builder | impl Encoding<usize> for Bcd | decode | mod=encoding all-loops n3=d props=C02,C17 $M
         //@ loop 0
                 invariant bcd_fold(data@, iter.index@ as nat, 0xffff_ffff_ffff_ffff) == Some(rv as nat),
         //@ end
         open spec fn self_delimiting() -> bool { false }
+        open spec fn functional() -> bool { true }
         proof fn law_dec_bounds(b: Seq<u8>) {}
         proof fn law_dec_frame(b: Seq<u8>, s: Seq<u8>) {}
         //@ tag enc.law_inverse.bcd.usize C17 C01
